@@ -197,6 +197,7 @@ def run(ctx, rep):
                 r_e.finding(inst + "|result-not-returned", loc_str(b.f, cs[0].loc), "the command's Result is not written to main's return place")
             else:
                 r_e.ok(inst, loc_str(b.f, cs[0].loc))
-    from rules import c13_dir, c13_nonempty
+    from rules import c13_dir, c13_nonempty, c13_emitall
     c13_dir.run(ctx, rep)
     c13_nonempty.run(ctx, rep)
+    c13_emitall.run(ctx, rep)
